@@ -2,6 +2,7 @@ package main
 
 import (
 	"fmt"
+	"golang.org/x/sys/unix"
 	"io"
 	"os"
 	"path"
@@ -150,7 +151,7 @@ func init() {
 	core.Register(&core.Prop{
 		ID:    "C03",
 		Level: "exploration",
-		Rule: "hostile packet scripts = STAT sequence of a random tree (symlinks to outside sentinels, xattrs on symlinks, devices) with one mutation {path '..', '.', '', 'a/../..', '../x', absolute, unclean, duplicate, out of order, child of file/symlink, missing parent, hard link to unknown/later/escaping/non-file name, unsolicited DATA, DATA after terminator, backslash and newline names, huge sizes} or none, sent by a scripted sender over real pipes to a receiver process inside a chroot jail, x prior destinations full of symlinks (absolute and '..'-laden) to sentinels outside dest x {normal, merge, metadata-only}; everything outside dest (and dest's own directory entry) is snapshotted before and after (inode, mode, owner, mtime, ctime, bytes, xattrs). " +
+		Rule: "Directed additions: a listing symlink in an append-only destination (it cannot be removed; only directories are announced then). hostile packet scripts = STAT sequence of a random tree (symlinks to outside sentinels, xattrs on symlinks, devices) with one mutation {path '..', '.', '', 'a/../..', '../x', absolute, unclean, duplicate, out of order, child of file/symlink, missing parent, hard link to unknown/later/escaping/non-file name, unsolicited DATA, DATA after terminator, backslash and newline names, huge sizes} or none, sent by a scripted sender over real pipes to a receiver process inside a chroot jail, x prior destinations full of symlinks (absolute and '..'-laden) to sentinels outside dest x {normal, merge, metadata-only}; everything outside dest (and dest's own directory entry) is snapshotted before and after (inode, mode, owner, mtime, ctime, bytes, xattrs). " +
 			"non-trivial = script with a malformation or with an entry colliding with an outward symlink of the prior destination; distinct by (script, prior, mode) fingerprint",
 		Assumptions: []string{"root, chroot(2) available", "no concurrent local attacker (TOCTOU races are out of scope)", "a receiver process crash counts as a failed receive call (counted separately)"},
 		Cases: func(tier string) int {
@@ -314,6 +315,7 @@ func c03Run(c *core.Ctx) *core.Result {
 	var tmpSeed uint32
 	rejectBase := ""
 	forceMeta := false
+	appendOnly := false
 	hlSrc, hlDst := "", ""
 	var hlSkip []string
 	extraAfterEnd := false
@@ -486,6 +488,24 @@ func c03Run(c *core.Ctx) *core.Result {
 		os.Symlink(core.Pick(R, []string{outside + "/dir/planted-listing", outside + "/planted-listing", up + rc + "/outside/dir/planted-listing", outside + "/file", outside + "/dir/inner", outside + "/dir"}), filepath.Join(dest, ".fsutil-metadata"))
 		forceMeta = true
 		r.Count("listing_name_as_symlink_scripts", 1)
+		if ar := core.NewRand(core.Mix(c.Seed, "C03-append-only", c.Index)); ar.P(1, 3) {
+			// ... and cannot be taken away: the destination directory is
+			// append-only (entries can be made, not removed or renamed, so
+			// the script announces directories only)
+			var dirsOnly []*types.Stat
+			for _, st := range stats {
+				if os.FileMode(st.Mode).IsDir() {
+					dirsOnly = append(dirsOnly, st)
+				}
+			}
+			if setAppendOnly(dest, true) == nil {
+				defer setAppendOnly(dest, false)
+				stats = dirsOnly
+				content = map[string][]byte{}
+				appendOnly = true
+				r.Count("listing_symlinks_that_cannot_be_removed", 1)
+			}
+		}
 	case "deep-revisit":
 		// a directory chain whose depth lies around the sizes at which a
 		// growing per-level stack is re-allocated (8..12, 18..22, 38..42);
@@ -672,7 +692,7 @@ func c03Run(c *core.Ctx) *core.Result {
 	case "metaonly":
 		opt.MetaOnly = core.Pick(R, []string{"none", "all", "files"})
 	}
-	if forceMeta && R.P(3, 4) {
+	if forceMeta && (R.P(3, 4) || appendOnly) {
 		mode = "merge+metaonly"
 		opt.Merge = true
 		opt.MetaOnly = core.Pick(R, []string{"all", "files"})
@@ -938,4 +958,25 @@ func hostilePacket(u hpkt) *types.Packet {
 		return &types.Packet{Type: types.PACKET_REQ, ID: u.ID}
 	}
 	return &types.Packet{Type: types.PACKET_DATA, ID: u.ID, Data: u.Data}
+}
+
+// setAppendOnly sets or clears the append-only attribute of a directory
+// (chattr +a): entries can be created in it, not removed or renamed.
+func setAppendOnly(dir string, on bool) error {
+	fd, err := unix.Open(dir, unix.O_RDONLY|unix.O_DIRECTORY, 0)
+	if err != nil {
+		return err
+	}
+	defer unix.Close(fd)
+	fl, err := unix.IoctlGetUint32(fd, unix.FS_IOC_GETFLAGS)
+	if err != nil {
+		return err
+	}
+	const appendFl = 0x20
+	if on {
+		fl |= appendFl
+	} else {
+		fl &^= appendFl
+	}
+	return unix.IoctlSetPointerInt(fd, unix.FS_IOC_SETFLAGS, int(fl))
 }
